@@ -32,23 +32,34 @@ theorem pairwise_map {α β} (f : α → β) (R : β → β → Prop) (l : List 
     obtain ⟨a, ha, rfl⟩ := List.mem_map.mp hb
     exact hx a ha
 
+theorem pInfo_cases (fi : Tlv) :
+    (pInfo fi).kind = .tables ((items .zero fi.children).map pTable) ∨
+    (pInfo fi).kind = .vars (items .bytes fi.children) ∨ (pInfo fi).kind = .other := by
+  unfold pInfo
+  by_cases h1 : fi.key.ws = strStringFileInfo
+  · simp [h1]
+  · by_cases h2 : fi.key.ws = strVarFileInfo
+    · have hne : strVarFileInfo ≠ strStringFileInfo := by decide
+      simp [h2, hne]
+    · simp [h1, h2]
+
 theorem pInfo_tables (fi : Tlv) : ∀ t ∈ (pInfo fi).tables, ∃ st ∈ items .zero fi.children, t = pTable st := by
   intro t ht
-  unfold pInfo PInfo.tables at ht
-  by_cases h1 : fi.key.ws = strStringFileInfo
-  · simp only [h1, if_true, List.mem_map] at ht
+  unfold PInfo.tables at ht
+  rcases pInfo_cases fi with h | h | h <;> rw [h] at ht
+  · simp only [List.mem_map] at ht
     obtain ⟨st, hst, rfl⟩ := ht
     exact ⟨st, hst, rfl⟩
-  · by_cases h2 : fi.key.ws = strVarFileInfo <;> simp [h1, h2] at ht
+  · simp at ht
+  · simp at ht
 
 theorem pInfo_vars (fi : Tlv) : ∀ x ∈ (pInfo fi).vars, x ∈ items .bytes fi.children := by
   intro x hx
-  unfold pInfo PInfo.vars at hx
-  by_cases h1 : fi.key.ws = strStringFileInfo
-  · simp [h1] at hx
-  · by_cases h2 : fi.key.ws = strVarFileInfo
-    · simpa [h1, h2] using hx
-    · simp [h1, h2] at hx
+  unfold PInfo.vars at hx
+  rcases pInfo_cases fi with h | h | h <;> rw [h] at hx
+  · simp at hx
+  · exact hx
+  · simp at hx
 
 theorem pRoots_nested (w : Sl) : ∀ r ∈ pRoots w, r.Nested w := by
   intro r hr
@@ -70,11 +81,11 @@ theorem pRoots_nested (w : Sl) : ∀ r ∈ pRoots w, r.Nested w := by
     exact (items_ext .zero fi.children).1 st hst
   · intro i hi
     obtain ⟨fi, _, rfl⟩ := hinfo i hi
-    unfold pInfo PInfo.tables
-    by_cases h1 : fi.key.ws = strStringFileInfo
-    · simp only [h1, if_true]
-      exact pairwise_map pTable _ _ (items_ext .zero fi.children).2
-    · by_cases h2 : fi.key.ws = strVarFileInfo <;> simp [h1, h2]
+    unfold PInfo.tables
+    rcases pInfo_cases fi with h | h | h <;> rw [h]
+    · exact pairwise_map pTable _ _ (items_ext .zero fi.children).2
+    · exact List.Pairwise.nil
+    · exact List.Pairwise.nil
   · intro i hi t ht x hx
     obtain ⟨fi, _, rfl⟩ := hinfo i hi
     obtain ⟨st, _, rfl⟩ := pInfo_tables fi t ht
@@ -88,13 +99,11 @@ theorem pRoots_nested (w : Sl) : ∀ r ∈ pRoots w, r.Nested w := by
     exact (items_ext .bytes fi.children).1 x (pInfo_vars fi x hx)
   · intro i hi
     obtain ⟨fi, _, rfl⟩ := hinfo i hi
-    unfold pInfo PInfo.vars
-    by_cases h1 : fi.key.ws = strStringFileInfo
-    · simp [h1]
-    · by_cases h2 : fi.key.ws = strVarFileInfo
-      · simp only [h1, h2, if_true, if_false]
-        exact (items_ext .bytes fi.children).2
-      · simp [h1, h2]
+    unfold PInfo.vars
+    rcases pInfo_cases fi with h | h | h <;> rw [h]
+    · exact List.Pairwise.nil
+    · exact (items_ext .bytes fi.children).2
+    · exact List.Pairwise.nil
 
 /-! ### node count -/
 
@@ -119,9 +128,9 @@ theorem pTable_count (st : Tlv) : 4 * (pTable st).count ≤ 4 + st.children.len 
   simp only [PTable.count, pTable]; omega
 
 theorem pInfo_count (fi : Tlv) : 4 * (pInfo fi).count ≤ 4 + fi.children.len := by
-  unfold PInfo.count pInfo
-  by_cases h1 : fi.key.ws = strStringFileInfo
-  · simp only [h1, if_true, List.map_map]
+  unfold PInfo.count
+  rcases pInfo_cases fi with h | h | h <;> rw [h]
+  · simp only [List.map_map]
     have := items_sum_le .zero (fun st => 4 * (pTable st).count) fi.children (by
       intro t ht
       have h1 := ((items_ext .zero fi.children).1 t ht).children_le
@@ -133,11 +142,9 @@ theorem pInfo_count (fi : Tlv) : 4 * (pInfo fi).count ≤ 4 + fi.children.len :=
       | nil => rfl
       | cons a l ih => simp only [List.map_cons, List.sum_cons, ih, Function.comp]; omega
     omega
-  · by_cases h2 : fi.key.ws = strVarFileInfo
-    · simp only [h1, h2, if_true, if_false]
-      have := items_length_le .bytes fi.children
-      omega
-    · simp only [h1, h2, if_false]; omega
+  · have := items_length_le .bytes fi.children
+    simp only []; omega
+  · simp only []; omega
 
 theorem pRoot_count (vi : Tlv) : 4 * (pRoot vi).count ≤ 4 + vi.children.len := by
   unfold PRoot.count pRoot
@@ -204,11 +211,20 @@ theorem digit_hex {c d : Nat} (h : hexDigitVal c = some d) : digit c = d ∧ d <
   unfold hexDigitVal at h
   unfold digit
   split at h
-  · cases h; rename_i hc; constructor <;> (simp only []; omega)
+  · cases h; rename_i hc
+    simp only []
+    rw [if_neg (by omega), if_neg (by omega)]
+    constructor <;> omega
   · split at h
-    · cases h; rename_i hc; constructor <;> (simp only []; omega)
+    · cases h; rename_i hc
+      simp only []
+      rw [if_neg (by omega), if_pos (by omega)]
+      constructor <;> omega
     · split at h
-      · cases h; rename_i hc; constructor <;> (simp only []; omega)
+      · cases h; rename_i hc
+        simp only []
+        rw [if_pos (by omega)]
+        constructor <;> omega
       · cases h
 
 theorem lor4 {d0 d1 d2 d3 : Nat} (h0 : d0 < 16) (h1 : d1 < 16) (h2 : d2 < 16) (h3 : d3 < 16) :
